@@ -154,6 +154,16 @@ class _Subst(ast.NodeTransformer):
             return ast.copy_location(ast.Name(id=self.rename[node.id], ctx=node.ctx), node)
         return node
 
+    def visit_Lambda(self, node: ast.Lambda):
+        # the lambda's own parameters shadow the helper's locals / parameters of the same name inside its body
+        a = node.args
+        own = {x.arg for x in a.posonlyargs + a.args + a.kwonlyargs} | ({a.vararg.arg} if a.vararg else set()) | ({a.kwarg.arg} if a.kwarg else set())
+        inner = _Subst({k: v for k, v in self.mapping.items() if k not in own}, {k: v for k, v in self.rename.items() if k not in own})
+        node.body = inner.visit(node.body)
+        node.args.defaults = [self.visit(d) for d in node.args.defaults]
+        node.args.kw_defaults = [self.visit(d) if d is not None else None for d in node.args.kw_defaults]
+        return node
+
     def visit_Nonlocal(self, node):
         return None
 
